@@ -45,9 +45,9 @@ func (s *PersistentHybridIndex) compactSegments(segments []*segmentMetadata) err
 
 	// Create new merged index
 	mergedIndex := NewHybridSearchIndex(
-		s.config.VectorIndexTemplate,
-		s.config.TextIndexTemplate,
-		s.config.MetadataIndexTemplate,
+		newVectorIndexLike(s.config.VectorIndexTemplate),
+		newTextIndexLike(s.config.TextIndexTemplate),
+		newMetadataIndexLike(s.config.MetadataIndexTemplate),
 	)
 
 	// Track statistics
